@@ -232,4 +232,21 @@ def run(facts, rep, tier, ctx):
         pra.table_p(A, "R02.3")
         pra.generic_routes(A, "R02.3g")
     PathRules(facts, ws, D).generic_routes(rep, "R02.3g")
+    # R02.7 is_file / is_dir answer through exists() first: exists() is total on both backends, metadata() of a path below a
+    # file is not (ENOTDIR on disk, "not found" in memory) — a single metadata() lookup makes the two backends disagree there
+    from . import c05 as _c05
+    for w7 in (ws, wa):
+        if w7.present():
+            _c05.is_kind_rules(facts, _c05._P5(rep if not w7.asyncw else _Prefixed(rep, "A"), "R02.7"), w7, D)
+    # R02.1t a native same-filesystem transfer of the in-memory backend establishes what rename(2)/copy enforce on disk: the
+    # destination's parent is an existing directory, the source has the right type
+    from ..report import Report as _Rp
+    for w7 in (ws, wa):
+        if not w7.present():
+            continue
+        scr7 = _Rp("t")
+        c01.table_m(facts, scr7, "M", "Mk", self_ty=w7.memory, trait=w7.trait.rsplit("::", 1)[1], ops_filter=c01.TWO_PATH_OPS)
+        for o in scr7.obligations:
+            if o["rule"] == "M":
+                rep.ob(("A/" if w7.asyncw else "") + "R02.1t", o["fn"], o["key"].split("|")[2], o["ok"], o["detail"], o["loc"])
     rep.assume("Table O is what Linux/POSIX enforce for the std calls; O_APPEND seek semantics are excluded by the property")
